@@ -60,10 +60,12 @@ def rel_close(a, b, rel, floor=0.0):
     return abs(a - b) <= rel * max(abs(a), abs(b)) + floor
 
 
-def gn_step_oracle(ctx, case, g, ff, S_, check_report=True):
+def gn_step_oracle(ctx, case, g, ff, S_, check_report=True, fixed=None):
     """One optimizer iteration on the live graph `g` is exactly the Gauss-Newton step of the dense reference system
-    reduced to the free coordinates (C03; reused by C06).  Returns True if a failure was reported or the case discarded."""
-    fixed = expected_fixed(case, ff)
+    reduced to the free coordinates (C03; reused by C06).  Returns True if a failure was reported or the case discarded.
+    `fixed` (per-vertex flags expected at solve time) defaults to the case's flags (+ the first vertex if ff)."""
+    if fixed is None:
+        fixed = expected_fixed(case, ff)
     before = RG.poses_snapshot(g)
     sys0 = RG.system(g)
     free = RG.free_indices(g, fixed)
